@@ -27,8 +27,10 @@ CONSTANTS Threads,     \* names of the threads that call the object
           Inf,         \* "no deadline" / "no time-out": larger than every time that occurs
           Slack        \* tolerated lateness of a return in ticks (0 under the deterministic scheduler)
 
-VARIABLES pending, created, dl, nm, queued, ran, dropped, flusher, qsince, now, call
-xvars == <<pending, created, dl, nm, queued, ran, dropped, flusher, qsince, now, call>>
+VARIABLES pending, created, dl, nm, queued, ran, dropped, flusher, qsince, now, call,
+          dto,         \* default_timeout of the MultiEvent (Inf = none; the constructor treats 0 as none)
+          defname      \* its attribute `name`: default name of new sub-events ("" = not set)
+xvars == <<pending, created, dl, nm, queued, ran, dropped, flusher, qsince, now, call, dto, defname>>
 
 None == "none"
 Min(a, b) == IF a <= b THEN a ELSE b
@@ -36,7 +38,8 @@ Max(a, b) == IF a >= b THEN a ELSE b
 Range(s) == {s[j] : j \in DOMAIN s}
 Plus(a, b) == IF a = Inf \/ b = Inf THEN Inf ELSE a + b
 
-Idle == [op |-> "idle", e |-> "", a |-> "", to |-> 0, name |-> "", st |-> "idle", bvt |-> 0,
+NoDl == -1           \* deadline() when nothing is outstanding (the code returns 0, an absolute time long past)
+Idle == [op |-> "idle", e |-> "", a |-> "", to |-> 0, name |-> "", st |-> "idle", bvt |-> 0, dn |-> {},
          bres |-> FALSE, ires |-> 0, sres |-> {},
          lo |-> 0, hi |-> 0, shi |-> 0, sawQuiet |-> FALSE, sawEmpty |-> FALSE, ovl |-> FALSE, half |-> FALSE]
 
@@ -44,13 +47,14 @@ Mutators == {"new", "set", "clear", "queue"}
 Readers == {"wait", "wfor", "deadline"}          \* calls that look at the whole set of sub-events
 
 (* what deadline() computes: 0 if nothing is outstanding, Inf (None) if an outstanding event has no deadline *)
-MaxDl(S) == IF S = {} THEN 0
+MaxDl(S) == IF S = {} THEN NoDl
             ELSE IF \E e \in S : dl[e] = Inf THEN Inf
             ELSE CHOOSE d \in {dl[e] : e \in S} : \A e \in S : dl[e] <= d
 Names(S) == {nm[e] : e \in S}
 Quiet == pending = {} /\ flusher = None
 
-XInit == /\ pending = {} /\ created = {} /\ dl = <<>> /\ nm = <<>> /\ queued = <<>> /\ ran = <<>>
+XInit == /\ defname = ""
+         /\ pending = {} /\ created = {} /\ dl = <<>> /\ nm = <<>> /\ queued = <<>> /\ ran = <<>>
          /\ dropped = {} /\ flusher = None /\ qsince = 0 /\ now = 0
          /\ call = [th \in Threads |-> Idle]
 
@@ -72,22 +76,37 @@ Begin(th, vt, op, e, a, to, name) ==
    /\ call' = [x \in Threads |->
         IF x = th
         THEN [Idle EXCEPT !.op = op, !.e = e, !.a = a, !.to = to, !.name = name, !.st = "called", !.bvt = vt,
-                          !.sawEmpty = (pending = {}),
+                          !.sawEmpty = (pending = {}), !.dn = {defname},
                           !.half = \E y \in Threads \ {th} : call[y].op = "new" /\ call[y].st # "idle"]
         ELSE IF op = "new" /\ call[x].op \in Readers /\ call[x].st \in {"called", "snapped"}
              THEN [call[x] EXCEPT !.half = TRUE] ELSE call[x]]
-   /\ UNCHANGED <<pending, created, dl, nm, queued, ran, dropped, flusher, qsince>>
+   /\ UNCHANGED <<pending, created, dl, nm, queued, ran, dropped, flusher, qsince, dto, defname>>
 
 (* ------------------------------------------------------------------ effect points *)
-(* new(timeout, name): the sub-event is outstanding from now on; its deadline is the time of creation + timeout *)
+(* new(timeout, name) / get_trigger(timeout, name): the sub-event is outstanding from now on; its deadline is *)
+(* the time of creation + timeout; timeout None or 0 means the default time-out of the MultiEvent, a missing   *)
+(* name the default name (the attribute `name` as it was at some moment of the call) or "<unnamed>"            *)
 LinNew(th, hiT) ==
-   LET c == call[th] IN
+   LET c == call[th]
+       to == IF c.to = 0 THEN dto ELSE c.to IN
    /\ c.op = "new" /\ c.st = "called" /\ flusher = None /\ c.e \notin created
-   /\ \E d \in (IF c.to = Inf THEN {Inf} ELSE (c.bvt + c.to) .. (hiT + c.to)) :
+   /\ \E d \in (IF to = Inf THEN {Inf} ELSE (c.bvt + to) .. (hiT + to)) :
         /\ dl' = (c.e :> d) @@ dl
         /\ Effect(th, [c EXCEPT !.st = "done", !.ires = d], pending \cup {c.e}, None, hiT)
-   /\ created' = created \cup {c.e} /\ nm' = (c.e :> c.name) @@ nm
-   /\ UNCHANGED <<queued, ran, dropped>>
+   /\ created' = created \cup {c.e}
+   /\ \E n \in (IF c.name # "" THEN {c.name} ELSE {IF x = "" THEN "<unnamed>" ELSE x : x \in c.dn}) :
+        nm' = (c.e :> n) @@ nm
+   /\ UNCHANGED <<queued, ran, dropped, dto, defname>>
+(* multievent.name = ...: a plain attribute assignment *)
+LinSetName(th, hiT) ==
+   LET c == call[th] IN
+   /\ c.op = "setname" /\ c.st = "called"
+   /\ defname' = c.name
+   /\ pending' = pending /\ flusher' = flusher /\ qsince' = qsince
+   /\ call' = [x \in Threads |-> IF x = th THEN [c EXCEPT !.st = "done"]
+                                  ELSE IF call[x].op = "new" /\ call[x].st = "called"
+                                       THEN [call[x] EXCEPT !.dn = @ \cup {c.name}] ELSE call[x]]
+   /\ UNCHANGED <<created, dl, nm, queued, ran, dropped, dto>>
 
 (* set() of a sub-event / the callable returned by get_trigger(): idempotent; the thread that makes *)
 (* `pending` empty runs the queued actions                                                          *)
@@ -95,14 +114,14 @@ LinSet(th, hiT) ==
    LET c == call[th]  p2 == pending \ {c.e} IN
    /\ c.op = "set" /\ c.st = "called" /\ flusher = None /\ c.e \in created
    /\ Effect(th, [c EXCEPT !.st = "done"], p2, IF p2 = {} /\ queued # <<>> THEN th ELSE None, hiT)
-   /\ UNCHANGED <<created, dl, nm, queued, ran, dropped>>
+   /\ UNCHANGED <<created, dl, nm, queued, ran, dropped, dto, defname>>
 
 (* clear() of a sub-event: outstanding again (the MultiEvent is re-used) *)
 LinClear(th, hiT) ==
    LET c == call[th] IN
    /\ c.op = "clear" /\ c.st = "called" /\ flusher = None /\ c.e \in created
    /\ Effect(th, [c EXCEPT !.st = "done"], pending \cup {c.e}, None, hiT)
-   /\ UNCHANGED <<created, dl, nm, queued, ran, dropped>>
+   /\ UNCHANGED <<created, dl, nm, queued, ran, dropped, dto, defname>>
 
 (* queue(action): run at once by the caller if nothing is pending, else by the thread doing the last set *)
 LinQueue(th, hiT) ==
@@ -111,7 +130,7 @@ LinQueue(th, hiT) ==
    /\ c.a \notin Range(queued) \cup Range(ran) \cup dropped
    /\ queued' = Append(queued, c.a)
    /\ Effect(th, [c EXCEPT !.st = "done"], pending, IF pending = {} THEN th ELSE None, hiT)
-   /\ UNCHANGED <<created, dl, nm, ran, dropped>>
+   /\ UNCHANGED <<created, dl, nm, ran, dropped, dto, defname>>
 
 (* a queued action runs: in queue order, by the flusher only, once; an action that raises ends the flush, *)
 (* the actions behind it are dropped (documented in queue())                                              *)
@@ -121,7 +140,7 @@ Act(th, a, raises, hiT) ==
    /\ queued' = IF raises THEN <<>> ELSE Tail(queued)
    /\ dropped' = IF raises THEN dropped \cup Range(Tail(queued)) ELSE dropped
    /\ Effect(th, call[th], pending, IF queued' = <<>> THEN None ELSE th, hiT)
-   /\ UNCHANGED <<created, dl, nm>>
+   /\ UNCHANGED <<created, dl, nm, dto, defname>>
 
 (* wait(to), first point: which events are outstanding decides the limit *)
 Snap(th, hiT) ==
@@ -133,34 +152,34 @@ Snap(th, hiT) ==
                  ELSE [c EXCEPT !.st = "snapped", !.lo = Min(m, Plus(c.bvt, c.to)), !.hi = Min(m, Plus(hiT, c.to)),
                                 !.shi = hiT],
              pending, None, hiT)
-   /\ UNCHANGED <<created, dl, nm, queued, ran, dropped>>
+   /\ UNCHANGED <<created, dl, nm, queued, ran, dropped, dto, defname>>
 
 (* waiting_for(), deadline(): one consistent look at the outstanding events *)
 LinRead(th, hiT) ==
    LET c == call[th] IN
    /\ c.op \in {"wfor", "deadline"} /\ c.st = "called" /\ flusher = None
    /\ Effect(th, [c EXCEPT !.st = "done", !.sres = Names(pending), !.ires = MaxDl(pending)], pending, None, hiT)
-   /\ UNCHANGED <<created, dl, nm, queued, ran, dropped>>
+   /\ UNCHANGED <<created, dl, nm, queued, ran, dropped, dto, defname>>
 (* is_set() of a sub-event / of the MultiEvent: lock-free by design (threading.Event API) *)
 LinFlag(th, hiT) ==
    LET c == call[th] IN
    /\ c.op \in {"isset", "mset"} /\ c.st = "called"
    /\ Effect(th, [c EXCEPT !.st = "done", !.bres = IF c.op = "isset" THEN c.e \notin pending ELSE pending = {}],
              pending, flusher, hiT)
-   /\ UNCHANGED <<created, dl, nm, queued, ran, dropped>>
+   /\ UNCHANGED <<created, dl, nm, queued, ran, dropped, dto, defname>>
 
 Lin(th, hiT) == LinNew(th, hiT) \/ LinSet(th, hiT) \/ LinClear(th, hiT) \/ LinQueue(th, hiT)
-                \/ Snap(th, hiT) \/ LinRead(th, hiT) \/ LinFlag(th, hiT)
+                \/ Snap(th, hiT) \/ LinRead(th, hiT) \/ LinFlag(th, hiT) \/ LinSetName(th, hiT)
 
 (* ------------------------------------------------------------------ returns *)
 Done(th) == /\ call' = [call EXCEPT ![th] = Idle]
-            /\ UNCHANGED <<pending, created, dl, nm, queued, ran, dropped, flusher, qsince>>
+            /\ UNCHANGED <<pending, created, dl, nm, queued, ran, dropped, flusher, qsince, dto, defname>>
 
 RetPlain(th) ==        \* set / clear / queue return only when their flush is over
-   /\ call[th].op \in {"set", "clear", "queue"} /\ call[th].st = "done" /\ flusher # th /\ Done(th)
+   /\ call[th].op \in {"set", "clear", "queue", "setname"} /\ call[th].st = "done" /\ flusher # th /\ Done(th)
 RetNew(th, d) == /\ call[th].op = "new" /\ call[th].st = "done" /\ d = call[th].ires /\ Done(th)
 WaitTrueOK(c, vt) == c.sawQuiet /\ (Quiet => vt <= Max(qsince, c.shi) + Slack)
-WaitFalseOK(c, vt) == /\ c.lo # Inf /\ c.lo <= vt /\ vt <= c.hi + Slack
+WaitFalseOK(c, vt) == /\ c.lo # Inf /\ c.lo <= vt /\ vt <= Max(c.hi, c.shi) + Slack     \* (a limit already past: at once)
                       /\ ~(Quiet /\ qsince + Slack < vt)       \* it was woken up: no lost wake-up
 RetWait(th, res, vt) ==
    LET c == call[th] IN
